@@ -223,6 +223,13 @@ def bounded(tier, seed):
         kernel_cases(col)
     except Exception as e:
         col.add({"sig": f"native::kernel::exception::{type(e).__name__}", "what": str(e)[:300], "input": {}})
+    try:  # the log-correction the IWLS kernel hands to mh_step (user-supplied, position-dependent information): reported probability = exact MH probability
+        from rtc.c06 import kernel_case as _c06_kernel_case
+        sub = util.Collector()
+        _c06_kernel_case(sub, "iwls_user", seed + 2, 12)
+        col.add({**sub.violations[0], "sig": "native::kernel::iwls_correction_user_information"} if sub.violations else None)
+    except Exception as e:
+        col.add({"sig": f"native::kernel::exception::{type(e).__name__}", "what": str(e)[:300], "input": {"scenario": "IWLS with user-supplied information"}})
     if us[0] != 0.0:
         col.add({"sig": "native::infrastructure::zero_key", "what": f"PRNGKey({ZERO_KEY_SEED}) no longer draws 0.0 (got {us[0]})", "input": {}})
     grid = GRID if tier != "quick" else [g for g in GRID if g not in (-3.0e38, 1e-45, 88.0, 3.0e38, -1e-30)]
